@@ -12,9 +12,9 @@ From DS Require Import Gen.Constants Base.Bytes.
 Import ListNotations.
 Local Open Scope N_scope.
 
-Definition two64 : N := 18446744073709551616.
-Definition add64 (a b : N) : N := (a + b) mod two64.
-Definition rotl64 (x : N) (b : N) : N := N.lor (N.shiftl x b mod two64) (N.shiftr x (64 - b)).
+Definition word64 : N := 18446744073709551616.
+Definition add64 (a b : N) : N := (a + b) mod word64.
+Definition rotl64 (x : N) (b : N) : N := N.lor (N.shiftl x b mod word64) (N.shiftr x (64 - b)).
 Definition xor64 (a b : N) : N := N.lxor a b.
 
 Record sipstate := mkSip { v0 : N; v1 : N; v2 : N; v3 : N }.
@@ -56,8 +56,9 @@ Definition siphash24 (k0 k1 : N) (m : bytes) : N :=
   let s := sipround (sipround (sipround (sipround s))) in
   xor64 (xor64 (v0 s) (v1 s)) (xor64 (v2 s) (v3 s)).
 
-(* sip.go SipHash *)
-Definition sip_hash (name : bytes) : N := siphash24 CaFormatGoodbyeHashKey0 CaFormatGoodbyeHashKey1 name.
+(* sip.go SipHash; the result type is uint64 (the reduction is the identity on the value computed
+   above -- every step keeps its words below 2^64 -- and makes that bound evident) *)
+Definition sip_hash (name : bytes) : N := siphash24 CaFormatGoodbyeHashKey0 CaFormatGoodbyeHashKey1 name mod word64.
 
 (* Reference vectors of the SipHash-2-4 reference implementation (vectors.h):
    key 00 01 .. 0f, message 00 01 .. (n-1) for n = 0..63, result as a little-endian word. *)
